@@ -4,6 +4,9 @@ ALL_PEERS = list(range(10))
 DISTINCT_PEERS = [0, 3, 5, 6, 7, 8]     # pairwise different (address, AS, RIB view)
 
 
+# Peer Down reasons: RFC 7854 1..5, reserved 0, RFC 9069's 6, unassigned ones
+PD_REASONS = [0, 1, 2, 3, 4, 5, 6, 7, 100, 255]
+
 def plist(rng, lo, hi, pool=6):
     n = rng.range(lo, hi)
     if n == 0:
@@ -245,7 +248,8 @@ def gen_case(rng, peers=ALL_PEERS, flaps=True, reup=True, metrics=True, bgp=True
                 st["up"].add(i)
         elif op == "D":
             i = rng.choice(sorted(st["up"])) if st and st["up"] and rng.chance(85) else rng.choice(peers)
-            ops.append(f"D {k} {i}")
+            # the reason octet of the Peer Down (and the data that goes with it): the state machine never reads it
+            ops.append(f"D {k} {i}" + (f" {rng.choice(PD_REASONS)}" if rng.chance(40) else ""))
             if st and i in st["up"]:
                 st["up"].discard(i)
                 gone.add((k, i))
